@@ -553,6 +553,263 @@ theorem doTR_converges (c : TCtx) (n : Net) (m : Mem) (w : Nat) (href : c.hasRef
     show (doTrafficRouting c (stepNet c (stepNet c (stepNet c n))) m).done = true
     rw [hn1, hstep n1 ok1 ex1, hstep _ ok2 ex2, doTR_of_svcOk c _ m w href hw ex3 hl ok3, (hnet_m _ m Mem.empty).2]; exact h
 
+/-! ### C05 / C07 — the clean-up of the traffic routing converges -/
+
+/-- time passes: every grace period that was running has elapsed when the caller comes back -/
+def tickE : Exp → Exp
+  | .fresh => .elapsed
+  | e => e
+def tick (m : Mem) : Mem :=
+  ⟨tickE m.patchService, tickE m.restoreService, tickE m.restoreGateway, tickE m.removeCanaryService, tickE m.updateRoute⟩
+
+/-- no grace period is still running -/
+def NoFresh (m : Mem) : Prop := m.restoreService ≠ .fresh ∧ m.restoreGateway ≠ .fresh ∧ m.removeCanaryService ≠ .fresh
+
+theorem tickE_ne_fresh (e : Exp) : tickE e ≠ .fresh := by cases e <;> simp [tickE]
+theorem tick_noFresh (m : Mem) : NoFresh (tick m) := ⟨tickE_ne_fresh _, tickE_ne_fresh _, tickE_ne_fresh _⟩
+
+def expW : Exp → Nat
+  | .none => 0
+  | _ => 1
+
+/-- what is left to clean up, weighted so that every round that is not done lowers it -/
+def leftover (c : TCtx) (n : Net) (m : Mem) : Nat :=
+  (if n.stableExists = true ∧ c.hasRevKey = true ∧ n.stableSel.getD "" ≠ "" then 2 else 0) +
+  (if n.canaryIng.isSome = true then 2 else 0) +
+  (if c.disableGen = false ∧ n.canarySvc.isSome = true then 2 else 0) +
+  expW m.restoreService + expW m.restoreGateway + expW m.removeCanaryService
+
+theorem expW_tick_le (e : Exp) : expW (tickE e) ≤ expW e := by cases e <;> simp [expW, tickE]
+theorem expW_le_one (e : Exp) : expW e ≤ 1 := by cases e <;> simp [expW]
+
+/-- `runGrace` on a memory without running periods: modified → retry and one unit pending; elapsed → cleared;
+    none → nothing -/
+theorem runGrace_nofresh (g : Nat) (e : Exp) (md : Bool) (hg : g ≠ 0) (he : e ≠ .fresh) :
+    (md = true → runGrace g e md = (.fresh, true)) ∧
+    (md = false → (runGrace g e md).2 = false ∧ (runGrace g e md).1 = .none) := by
+  unfold runGrace
+  simp only [hg, if_false]
+  constructor
+  · intro h; simp [h]
+  · intro h; simp only [h, Bool.false_eq_true, if_false]; cases e <;> simp_all
+
+/-- `RestoreStableService` on a memory without running periods -/
+theorem rs_round (c : TCtx) (n : Net) (m : Mem) (href : c.hasRef = true) (hg : c.grace ≠ 0) (hm : m.restoreService ≠ .fresh) :
+    let r := restoreStableService c n m
+    r.err = false ∧ r.net.canaryIng = n.canaryIng ∧ r.net.canarySvc = n.canarySvc ∧ r.net.stableExists = n.stableExists ∧
+    r.mem.restoreGateway = m.restoreGateway ∧ r.mem.removeCanaryService = m.removeCanaryService ∧
+    ((n.stableExists = true ∧ c.hasRevKey = true ∧ n.stableSel.getD "" ≠ "") →
+      r.done = true ∧ r.net.stableSel = none ∧ r.mem.restoreService = .fresh) ∧
+    (¬ (n.stableExists = true ∧ c.hasRevKey = true ∧ n.stableSel.getD "" ≠ "") →
+      r.done = false ∧ r.net = n ∧ (n.stableExists = true → r.mem.restoreService = .none) ∧
+      (n.stableExists = false → r.mem = m)) := by
+  unfold restoreStableService
+  simp only [href, not_true_eq_false, if_false]
+  by_cases hex : n.stableExists = true
+  · simp only [hex, not_true_eq_false, if_false, true_and]
+    by_cases hk : c.hasRevKey = true
+    · by_cases hs : n.stableSel.getD "" = ""
+      · have := (runGrace_nofresh c.grace m.restoreService false hg hm).2 rfl
+        simp [hk, hs, this.1, this.2, hex]
+      · have := (runGrace_nofresh c.grace m.restoreService true hg hm).1 rfl
+        simp [hk, hs, this]
+    · have := (runGrace_nofresh c.grace m.restoreService false hg hm).2 rfl
+      simp [hk, this.1, this.2, hex]
+  · simp [hex]
+
+/-- `RestoreGateway` on a memory without running periods -/
+theorem rg_round (c : TCtx) (n : Net) (m : Mem) (href : c.hasRef = true) (hg : c.grace ≠ 0) (hm : m.restoreGateway ≠ .fresh) :
+    let r := restoreGateway c n m
+    r.err = false ∧ r.net.stableSel = n.stableSel ∧ r.net.canarySvc = n.canarySvc ∧ r.net.stableExists = n.stableExists ∧
+    r.net.canaryIng = none ∧
+    r.mem.restoreService = m.restoreService ∧ r.mem.removeCanaryService = m.removeCanaryService ∧
+    (n.canaryIng.isSome = true → r.done = true ∧ r.mem.restoreGateway = .fresh) ∧
+    (n.canaryIng.isSome = false → r.done = false ∧ r.mem.restoreGateway = .none) := by
+  unfold restoreGateway finaliseGw
+  simp only [href, not_true_eq_false, if_false]
+  cases hci : n.canaryIng with
+  | none =>
+    have := (runGrace_nofresh c.grace m.restoreGateway false hg hm).2 rfl
+    simp [this.1, this.2]
+  | some x =>
+    have := (runGrace_nofresh c.grace m.restoreGateway true hg hm).1 rfl
+    simp [this]
+
+/-- `RemoveCanaryService` on a memory without running periods -/
+theorem rc_round (c : TCtx) (n : Net) (m : Mem) (href : c.hasRef = true) (hg : c.grace ≠ 0) (hm : m.removeCanaryService ≠ .fresh) :
+    let r := removeCanaryService c n m
+    r.err = false ∧ r.net.stableSel = n.stableSel ∧ r.net.canaryIng = n.canaryIng ∧ r.net.stableExists = n.stableExists ∧
+    r.mem.restoreService = m.restoreService ∧ r.mem.restoreGateway = m.restoreGateway ∧
+    (c.disableGen = true → r.done = false ∧ r.net = n ∧ r.mem = m) ∧
+    (c.disableGen = false → r.net.canarySvc = none ∧
+      (n.canarySvc.isSome = true → r.done = true ∧ r.mem.removeCanaryService = .fresh) ∧
+      (n.canarySvc.isSome = false → r.done = false ∧ r.mem.removeCanaryService = .none)) := by
+  unfold removeCanaryService
+  simp only [href, not_true_eq_false, if_false]
+  by_cases hd : c.disableGen = true
+  · simp [hd]
+  · simp only [hd, if_false]
+    cases hcs : n.canarySvc with
+    | none =>
+      have := (runGrace_nofresh c.grace m.removeCanaryService false hg hm).2 rfl
+      simp [this.1, this.2]
+    | some x =>
+      have := (runGrace_nofresh c.grace m.removeCanaryService true hg hm).1 rfl
+      simp [this]
+
+def pinW (c : TCtx) (n : Net) : Nat := if n.stableExists = true ∧ c.hasRevKey = true ∧ n.stableSel.getD "" ≠ "" then 2 else 0
+def ingW (n : Net) : Nat := if n.canaryIng.isSome = true then 2 else 0
+def svcW (c : TCtx) (n : Net) : Nat := if c.disableGen = false ∧ n.canarySvc.isSome = true then 2 else 0
+
+theorem leftover_eq (c : TCtx) (n : Net) (m : Mem) :
+    leftover c n m = pinW c n + ingW n + svcW c n + expW m.restoreService + expW m.restoreGateway + expW m.removeCanaryService := rfl
+
+theorem pinW_congr (c : TCtx) (n n' : Net) (h1 : n'.stableExists = n.stableExists) (h2 : n'.stableSel = n.stableSel) :
+    pinW c n' = pinW c n := by unfold pinW; rw [h1, h2]
+theorem ingW_congr (n n' : Net) (h : n'.canaryIng = n.canaryIng) : ingW n' = ingW n := by unfold ingW; rw [h]
+theorem svcW_congr (c : TCtx) (n n' : Net) (h : n'.canarySvc = n.canarySvc) : svcW c n' = svcW c n := by unfold svcW; rw [h]
+
+/-- **one round of the clean-up makes progress**: it reports done, or strictly less is left afterwards -/
+theorem fin_round_progress (c : TCtx) (n : Net) (m : Mem) (href : c.hasRef = true) (hg : c.grace ≠ 0) (hm : NoFresh m) :
+    (finalisingTrafficRouting c n m).err = false ∧
+    ((finalisingTrafficRouting c n m).done = true ∨
+     leftover c (finalisingTrafficRouting c n m).net (tick (finalisingTrafficRouting c n m).mem) < leftover c n m) := by
+  obtain ⟨hm1, hm2, hm3⟩ := hm
+  obtain ⟨e1, a1, a2, a3, a4, a5, p1, p2⟩ := rs_round c n m href hg hm1
+  generalize hr1 : restoreStableService c n m = r1 at *
+  unfold finalisingTrafficRouting
+  simp only [href, not_true_eq_false, if_false, hr1]
+  by_cases hpin : n.stableExists = true ∧ c.hasRevKey = true ∧ n.stableSel.getD "" ≠ ""
+  · -- the stable Service is un-pinned in this round
+    obtain ⟨d1, s1, x1⟩ := p1 hpin
+    simp only [e1, d1, Bool.false_eq_true, false_or, if_true]
+    refine ⟨trivial, ?_⟩
+    rw [leftover_eq, leftover_eq]
+    have hA : pinW c r1.net = 0 := by unfold pinW; rw [s1]; simp
+    have hA0 : pinW c n = 2 := by unfold pinW; rw [if_pos hpin]
+    have hB := ingW_congr n r1.net a1
+    have hC := svcW_congr c n r1.net a2
+    have hx : expW (tick r1.mem).restoreService = 1 := by
+      show expW (tickE r1.mem.restoreService) = 1; rw [x1]; rfl
+    have hy : expW (tick r1.mem).restoreGateway ≤ expW m.restoreGateway := by
+      show expW (tickE r1.mem.restoreGateway) ≤ _; rw [a4]; exact expW_tick_le _
+    have hz : expW (tick r1.mem).removeCanaryService ≤ expW m.removeCanaryService := by
+      show expW (tickE r1.mem.removeCanaryService) ≤ _; rw [a5]; exact expW_tick_le _
+    omega
+  · obtain ⟨d1, s1, x1, x1'⟩ := p2 hpin
+    simp only [e1, d1, Bool.false_eq_true, or_self, if_false]
+    have hm2' : r1.mem.restoreGateway ≠ .fresh := by rw [a4]; exact hm2
+    have hm3' : r1.mem.removeCanaryService ≠ .fresh := by rw [a5]; exact hm3
+    -- what the first call leaves in the memory
+    have hrs : expW r1.mem.restoreService ≤ expW m.restoreService := by
+      by_cases hex : n.stableExists = true
+      · rw [x1 hex]; simp [expW]
+      · rw [x1' (by simpa using hex)]; exact Nat.le_refl _
+    obtain ⟨e2, b1, b2, b3, b4, b5, b6, q1, q2⟩ := rg_round c r1.net r1.mem href hg hm2'
+    generalize hr2 : restoreGateway c r1.net r1.mem = r2 at *
+    by_cases hing : r1.net.canaryIng.isSome = true
+    · obtain ⟨d2, y2⟩ := q1 hing
+      simp only [e2, d2, Bool.false_eq_true, false_or, if_true]
+      refine ⟨trivial, ?_⟩
+      rw [leftover_eq, leftover_eq]
+      have hA : pinW c r2.net = pinW c n := by
+        rw [pinW_congr c r1.net r2.net b3 b1, s1]
+      have hB : ingW r2.net = 0 := by unfold ingW; rw [b4]; simp
+      have hB0 : ingW n = 2 := by unfold ingW; rw [← a1, if_pos hing]
+      have hC : svcW c r2.net = svcW c n := by rw [svcW_congr c r1.net r2.net b2, svcW_congr c n r1.net a2]
+      have hx : expW (tick r2.mem).restoreService ≤ expW m.restoreService := by
+        show expW (tickE r2.mem.restoreService) ≤ _; rw [b5]; exact Nat.le_trans (expW_tick_le _) hrs
+      have hy : expW (tick r2.mem).restoreGateway = 1 := by
+        show expW (tickE r2.mem.restoreGateway) = 1; rw [y2]; rfl
+      have hz : expW (tick r2.mem).removeCanaryService ≤ expW m.removeCanaryService := by
+        show expW (tickE r2.mem.removeCanaryService) ≤ _; rw [b6, a5]; exact expW_tick_le _
+      omega
+    · have hing' : r1.net.canaryIng.isSome = false := by simpa using hing
+      obtain ⟨d2, y2⟩ := q2 hing'
+      simp only [e2, d2, Bool.false_eq_true, or_self, if_false]
+      have hm3'' : r2.mem.removeCanaryService ≠ .fresh := by rw [b6]; exact hm3'
+      obtain ⟨e3, c1, c2, c3, c4, c5, t1, t2⟩ := rc_round c r2.net r2.mem href hg hm3''
+      generalize hr3 : removeCanaryService c r2.net r2.mem = r3 at *
+      by_cases hd : c.disableGen = true
+      · obtain ⟨d3, _, _⟩ := t1 hd
+        simp only [e3, d3, Bool.false_eq_true, or_self, if_false]
+        exact ⟨trivial, Or.inl trivial⟩
+      · have hd' : c.disableGen = false := by simpa using hd
+        obtain ⟨u1, u2, u3⟩ := t2 hd'
+        by_cases hsvc : r2.net.canarySvc.isSome = true
+        · obtain ⟨d3, z3⟩ := u2 hsvc
+          simp only [e3, d3, Bool.false_eq_true, false_or, if_true]
+          refine ⟨trivial, ?_⟩
+          rw [leftover_eq, leftover_eq]
+          have hA : pinW c r3.net = pinW c n := by
+            rw [pinW_congr c r2.net r3.net c3 c1, pinW_congr c r1.net r2.net b3 b1, s1]
+          have hB : ingW r3.net ≤ ingW n := by
+            rw [ingW_congr r2.net r3.net c2]; unfold ingW; rw [b4]; simp
+          have hC : svcW c r3.net = 0 := by unfold svcW; rw [u1]; simp
+          have hC0 : svcW c n = 2 := by
+            unfold svcW; rw [← a2, ← b2, if_pos ⟨hd', hsvc⟩]
+          have hx : expW (tick r3.mem).restoreService ≤ expW m.restoreService := by
+            show expW (tickE r3.mem.restoreService) ≤ _; rw [c4, b5]; exact Nat.le_trans (expW_tick_le _) hrs
+          have hy : expW (tick r3.mem).restoreGateway ≤ expW m.restoreGateway := by
+            show expW (tickE r3.mem.restoreGateway) ≤ _; rw [c5, y2]; simp [tickE, expW]
+          have hz : expW (tick r3.mem).removeCanaryService = 1 := by
+            show expW (tickE r3.mem.removeCanaryService) = 1; rw [z3]; rfl
+          omega
+        · have hsvc' : r2.net.canarySvc.isSome = false := by simpa using hsvc
+          obtain ⟨d3, _⟩ := u3 hsvc'
+          simp only [e3, d3, Bool.false_eq_true, or_self, if_false]
+          exact ⟨trivial, Or.inl trivial⟩
+
+/-- `k` rounds of clean-up, time passing after each -/
+def finIter (c : TCtx) : Nat → Net × Mem → Net × Mem
+  | 0, s => s
+  | k + 1, s => finIter c k ((finalisingTrafficRouting c s.1 s.2).net, tick (finalisingTrafficRouting c s.1 s.2).mem)
+
+theorem finalising_converges_aux (c : TCtx) (href : c.hasRef = true) (hg : c.grace ≠ 0) :
+    ∀ (b : Nat) (n : Net) (m : Mem), leftover c n m ≤ b → NoFresh m →
+      ∃ k, k ≤ b ∧ (finalisingTrafficRouting c (finIter c k (n, m)).1 (finIter c k (n, m)).2).done = true := by
+  intro b
+  induction b with
+  | zero =>
+    intro n m hb hm
+    obtain ⟨_, hp⟩ := fin_round_progress c n m href hg hm
+    rcases hp with hd | hlt
+    · exact ⟨0, Nat.le_refl _, hd⟩
+    · omega
+  | succ b ih =>
+    intro n m hb hm
+    obtain ⟨_, hp⟩ := fin_round_progress c n m href hg hm
+    rcases hp with hd | hlt
+    · exact ⟨0, Nat.zero_le _, hd⟩
+    · obtain ⟨k, hk, hdone⟩ := ih (finalisingTrafficRouting c n m).net (tick (finalisingTrafficRouting c n m).mem) (by omega) (tick_noFresh _)
+      exact ⟨k + 1, by omega, hdone⟩
+
+/-- **C05 / C07 (the traffic clean-up converges)** — for every routing context, every network state and every
+    grace memory without a running period (e.g. the empty memory after a restart): if the caller comes back
+    whenever its grace period has elapsed, `FinalisingTrafficRouting` reports *done* after at most
+    `leftover ≤ 9` rounds, never an error — and by `finalising_order` / `finalising_done_clean` *done* means the
+    stable Service is un-pinned, the canary route withdrawn and the canary Service removed, in that order. -/
+theorem finalising_converges (c : TCtx) (n : Net) (m : Mem) (href : c.hasRef = true) (hg : c.grace ≠ 0) (hm : NoFresh m) :
+    ∃ k, k ≤ 9 ∧ (finalisingTrafficRouting c (finIter c k (n, m)).1 (finIter c k (n, m)).2).done = true := by
+  have hle : leftover c n m ≤ 9 := by
+    unfold leftover
+    have := expW_le_one m.restoreService
+    have := expW_le_one m.restoreGateway
+    have := expW_le_one m.removeCanaryService
+    split <;> split <;> split <;> omega
+  obtain ⟨k, hk, hd⟩ := finalising_converges_aux c href hg (leftover c n m) n m (Nat.le_refl _) hm
+  exact ⟨k, by omega, hd⟩
+
+/-- without a grace period the whole clean-up happens in the first call -/
+theorem finalising_immediate (c : TCtx) (n : Net) (m : Mem) (hg : c.grace = 0) :
+    (finalisingTrafficRouting c n m).done = true ∧ (finalisingTrafficRouting c n m).err = false := by
+  unfold finalisingTrafficRouting restoreStableService restoreGateway removeCanaryService runGrace finaliseGw
+  by_cases href : c.hasRef = true
+  · by_cases hex : n.stableExists = true
+    · by_cases hd : c.disableGen = true <;> simp [href, hex, hd, hg]
+    · by_cases hd : c.disableGen = true <;> simp [href, hex, hd, hg]
+  · simp [href]
+
 /-! ### non-vacuity (tests on literals: the hypotheses of the theorems above are met by ordinary states) -/
 
 def exCtx : TCtx :=
